@@ -636,14 +636,15 @@ impl LogInnerManager {
                 let result = match mark {
                     LogWriteMark::Success => LogWriteResult::Success,
                     LogWriteMark::SuccessToEnd => {
-                        if last_index + 1 == list.len() {
+                        //last_index is the position of the next unwritten record
+                        if last_index >= list.len() {
                             LogWriteResult::SuccessToEnd(self.get_end_index(), self.last_term)
                         } else {
                             LogWriteResult::FailureBatch(
                                 self.get_end_index(),
                                 self.last_term,
                                 list,
-                                last_index + 1,
+                                last_index,
                             )
                         }
                     }
